@@ -66,6 +66,7 @@ func (f *Multiply) Call(s *slip.Scope, args slip.List, depth int) (product slip.
 		case slip.Complex:
 			product = slip.Complex(complex128(product.(slip.Complex)) * complex128(ta))
 		}
+		product = canonicalNumber(product)
 	}
 	return
 }
